@@ -1,0 +1,291 @@
+//go:build verif
+
+package trie
+
+// Contracts for govc (/verif). Comment-only file: no executable code, not part of the default build.
+
+/*@
+// byte-slice vocabulary (contents, not slice headers)
+spec fn sameBytes(a []byte, b []byte) bool = len(a) == len(b) && (forall k :: 0 <= k && k < len(a) ==> a[k] == b[k])
+spec fn isPrefix(p []byte, s []byte) bool = len(p) <= len(s) && (forall k :: 0 <= k && k < len(p) ==> p[k] == s[k])
+
+// ---------------------------------------------------------------------------------------------------------------
+// C04 — one verification step of a Merkle proof, per node type (patriciaMerkleTrie.VerifyProof dispatches on `node`)
+
+// leaf: the walk ends successfully exactly when the remaining key equals the leaf's key; there is no next hash
+func (ln *leafNode) getNextHashAndKey(key []byte) (ok bool, want []byte, next []byte)
+  ensures  found-iff-key-equal: ok <==> sameBytes(key, ln.Key)
+  ensures  no-next: want == nil && next == nil
+  assigns  nothing
+
+// extension: never final; the step may continue to the child hash only if the extension's own key segment is a prefix of
+// the remaining key, and then the rest of the key is what follows the segment
+func (en *extensionNode) getNextHashAndKey(key []byte) (ok bool, want []byte, next []byte)
+  ensures  never-final: !ok
+  ensures  empty-key-stops: len(key) == 0 ==> want == nil && next == nil
+  ensures  sound: want != nil ==> isPrefix(en.Key, key)
+  ensures  child: len(key) > 0 ==> want == en.EncodedChild
+  ensures  rest: len(key) > 0 ==> len(en.Key) <= len(key) && next == key[len(en.Key):]
+  assigns  nothing
+
+// branch: never final; continues with the child hash stored at the position given by the first nibble of the key
+func (bn *branchNode) getNextHashAndKey(key []byte) (ok bool, want []byte, next []byte)
+  ensures  never-final: !ok
+  ensures  empty-key-stops: len(key) == 0 ==> want == nil && next == nil
+  ensures  child: len(key) > 0 ==> key[0] < len(bn.EncodedChildren) && want == bn.EncodedChildren[key[0]] && next == key[1:]
+  assigns  nothing
+@*/
+
+/*@
+func getEmptyNodeOfType(t byte) (n node, err error)
+  ensures  kind: err == nil ==> (t == 0 && typeIs(n, ptr_extensionNode)) || (t == 1 && typeIs(n, ptr_leafNode)) || (t == 2 && typeIs(n, ptr_branchNode))
+  ensures  unknown-type-refused: err == nil <==> t <= 2
+  assigns  nothing
+
+// Soundness chain vocabulary.
+//   srcOf(n)        ghost attribute of a decoded node: the buffer it was unmarshalled from (defined by Unmarshal's contract)
+//   provable(h, k)  "below hash h there is a hash-consistent path for the hex key suffix k", the least relation closed under the three
+//                   def-provable-* rules attached to node.getNextHashAndKey (the only place where node and key are both in scope)
+//   rootHash(tr)    the slice getRootHash returns
+spec fn srcOf(n node) []byte
+spec fn provable(h string, k []byte) bool
+spec fn rootHash(tr *patriciaMerkleTrie) []byte
+spec fn accepted(hash []byte, hexKey []byte) bool = provable(str(hash), hexKey)
+spec fn encOf(n node) []byte = srcOf(n)[:len(srcOf(n))+1]
+spec fn nodeHash(n node) string = str(n.getHasher().Compute(str(encOf(n))))
+
+func (m marshal.Marshalizer) Unmarshal(obj interface{}, buff []byte) (err error)
+  ensures def-src: err == nil ==> srcOf(obj) == buff
+  assigns nothing
+
+func (n trie.node) getHasher() (h hashing.Hasher)
+  pure
+
+func (n trie.node) setMarshalizer(m marshal.Marshalizer)
+  assigns nothing
+
+func (n trie.node) setHasher(h hashing.Hasher)
+  ensures def-hasher: n.getHasher() == h
+  assigns nothing
+
+func decodeNode(encNode []byte, marshalizer marshal.Marshalizer, hasher hashing.Hasher) (n node, err error)
+  requires marshalizer-set: marshalizer != nil
+  ensures  decoded-or-error: err == nil ==> n != nil
+  ensures  source: err == nil ==> encOf(n) == encNode && n.getHasher() == hasher
+  ensures  kind-from-last-byte: err == nil ==> len(encNode) >= 1 && ((encNode[len(encNode)-1] == 0 && typeIs(n, ptr_extensionNode)) || (encNode[len(encNode)-1] == 1 && typeIs(n, ptr_leafNode)) || (encNode[len(encNode)-1] == 2 && typeIs(n, ptr_branchNode)))
+  assigns  nothing
+
+func (h hashing.Hasher) Compute(s string) (r []byte)
+  pure
+  ensures non-empty-digest: len(r) > 0
+
+// hex form of a key: 2 nibbles per byte, byte order reversed (last key byte first), low nibble first, terminator 16 at the end
+func keyBytesToHex(str []byte) (r []byte)
+  ensures  fresh(r)
+  ensures  length: len(r) == 2*len(str) + 1
+  ensures  whole-array: off(r) == 0 && cap(r) == len(r)
+  ensures  terminator: r[len(r)-1] == 16
+  ensures  nibbles: forall k :: 0 <= k && k < len(str) ==> r[len(r)-2-2*k] == str[k] / 16 && r[len(r)-3-2*k] == str[k] % 16
+  ensures  hex-digits: forall j :: 0 <= j && j < len(r) - 1 ==> r[j] < 16
+  assigns  nothing
+
+loop 1
+  invariant progress: 0 <= hexSliceIndex && hexSliceIndex <= len(str) && i == hexLength - 2 - 2*hexSliceIndex
+  invariant terminator-set: nibbles[hexLength-1] == 16
+  invariant nibbles-so-far: forall k :: 0 <= k && k < hexSliceIndex ==> nibbles[hexLength-2-2*k] == str[k] / 16 && nibbles[hexLength-3-2*k] == str[k] % 16
+  invariant digits-so-far: forall j :: i < j && j < hexLength - 1 ==> nibbles[j] < 16
+  invariant input-kept: forall k :: 0 <= k && k < len(str) ==> str[k] == old(str[k])
+  decreases i
+
+func (tr *patriciaMerkleTrie) getRootHash() (h []byte, err error)
+  trusted
+  ensures  err == nil ==> h == rootHash(tr)
+  assigns  nothing
+
+// payload views of a `node` interface value: asLeaf(n) is the *leafNode inside n when typeIs(n, ptr_leafNode), etc.
+// The engine generates no `refines` obligations: the lemmas *-step-refines prove, for n == iface(receiver), every clause of the
+// interface contract below from the (verified) contract of the implementation.
+spec fn asLeaf(n node) *leafNode = payload(n, ptr_leafNode)
+spec fn asExt(n node) *extensionNode = payload(n, ptr_extensionNode)
+spec fn asBranch(n node) *branchNode = payload(n, ptr_branchNode)
+// extMatches(n, key): name for "the extension's key segment is a prefix of key" (defined by clause def-ext-matches; keeps the
+// quantified prefix formula out of the premises of the chain rule, where no solver re-proves it)
+spec fn extMatches(n node, key []byte) bool
+
+// interface-level contract of one proof step = case split over the three implementations
+func (n trie.node) getNextHashAndKey(key []byte) (ok bool, want []byte, next []byte)
+  requires known-kind: typeIs(n, ptr_leafNode) || typeIs(n, ptr_extensionNode) || typeIs(n, ptr_branchNode)
+  ensures  leaf-found-iff-key-equal: typeIs(n, ptr_leafNode) ==> (ok <==> sameBytes(key, asLeaf(n).Key)) && want == nil && next == nil
+  ensures  only-leaf-accepts: ok ==> typeIs(n, ptr_leafNode)
+  ensures  def-ext-matches: typeIs(n, ptr_extensionNode) ==> (extMatches(n, key) <==> isPrefix(asExt(n).Key, key))
+  ensures  ext-sound: typeIs(n, ptr_extensionNode) && want != nil ==> extMatches(n, key)
+  ensures  ext-step: typeIs(n, ptr_extensionNode) && len(key) > 0 ==> want == asExt(n).EncodedChild && len(asExt(n).Key) <= len(key) && next == key[len(asExt(n).Key):]
+  ensures  branch-step: typeIs(n, ptr_branchNode) && len(key) > 0 ==> key[0] < len(asBranch(n).EncodedChildren) && want == asBranch(n).EncodedChildren[key[0]] && next == key[1:]
+  ensures  empty-key-stops: !typeIs(n, ptr_leafNode) && len(key) == 0 ==> want == nil && next == nil
+  ensures  same-hex-key: len(want) > 0 ==> next[0-off(next):] == key[0-off(key):]
+  ensures  def-provable-leaf: typeIs(n, ptr_leafNode) && sameBytes(key, asLeaf(n).Key) ==> provable(nodeHash(n), key)
+  ensures  def-provable-ext: typeIs(n, ptr_extensionNode) && extMatches(n, key) && accepted(asExt(n).EncodedChild, key[len(asExt(n).Key):]) ==> provable(nodeHash(n), key)
+  ensures  def-provable-branch: typeIs(n, ptr_branchNode) && len(key) > 0 && key[0] < len(asBranch(n).EncodedChildren) && accepted(asBranch(n).EncodedChildren[key[0]], key[1:]) ==> provable(nodeHash(n), key)
+  assigns  nothing
+
+lemma leaf-step-refines
+  vars n node, ln *leafNode, key []byte
+  hyp  n == iface(ln) && ln != nil
+  call ok, want, next = ln.getNextHashAndKey(key)
+  concl leaf-found-iff-key-equal: (ok <==> sameBytes(key, asLeaf(n).Key)) && want == nil && next == nil
+  concl same-hex-key: len(want) > 0 ==> next[0-off(next):] == key[0-off(key):]
+
+lemma ext-step-refines
+  vars n node, en *extensionNode, key []byte
+  hyp  n == iface(en) && en != nil
+  call ok, want, next = en.getNextHashAndKey(key)
+  concl only-leaf-accepts: !ok
+  concl ext-sound: want != nil ==> isPrefix(asExt(n).Key, key)
+  concl ext-step: len(key) > 0 ==> want == asExt(n).EncodedChild && len(asExt(n).Key) <= len(key) && next == key[len(asExt(n).Key):]
+  concl empty-key-stops: len(key) == 0 ==> want == nil && next == nil
+  concl same-hex-key: len(want) > 0 ==> next[0-off(next):] == key[0-off(key):]
+
+lemma branch-step-refines
+  vars n node, bn *branchNode, key []byte
+  hyp  n == iface(bn) && bn != nil
+  call ok, want, next = bn.getNextHashAndKey(key)
+  concl only-leaf-accepts: !ok
+  concl branch-step: len(key) > 0 ==> key[0] < len(asBranch(n).EncodedChildren) && want == asBranch(n).EncodedChildren[key[0]] && next == key[1:]
+  concl empty-key-stops: len(key) == 0 ==> want == nil && next == nil
+  concl same-hex-key: len(want) > 0 ==> next[0-off(next):] == key[0-off(key):]
+
+// VerifyProof. Soundness is carried by the loop invariant `chain` (backward form): whatever is provable below the hash
+// currently demanded (wantHash) for the remaining key suffix is provable below the root hash for the whole hex key. Its
+// preservation needs exactly: the element was hash-compared with wantHash, it is the element that was decoded, and the
+// step's outputs are threaded into the next iteration. At `return true` the accepting leaf gives provable(wantHash, key)
+// by def-provable-leaf, hence accepted(rootHash(tr), keyBytesToHex(rawKey)); that last implication cannot be written as a
+// postcondition (the hex key is a local, fresh slice) and is NOT an obligation. "Provable below the root hash" equals
+// "present in the trie" only for a collision-free hash (assumption outside the engine).
+// The contract parameter is called rawKey because the source reassigns `key` (loop invariants see the hex suffix as `key`).
+func (tr *patriciaMerkleTrie) VerifyProof(rawKey []byte, proof [][]byte) (ok bool, err error)
+  requires collaborators-set: tr.hasher != nil && tr.marshalizer != nil
+  ensures  error-means-rejected: err != nil ==> !ok
+  ensures  accept-needs-proof: ok ==> len(proof) > 0
+  assigns  nothing
+
+loop 1
+  invariant index: -1 <= rangeindex && rangeindex < len(proof) || (rangeindex == -1 && len(proof) == 0)
+  invariant chain: len(wantHash) == 0 || (accepted(wantHash, key) ==> accepted(rootHash(tr), key[0-off(key):]))
+@*/
+
+/*@
+// ---------------------------------------------------------------------------------------------------------------
+// C01 — helper layer of the key-value map: key encoding, common prefix, and the one-level read steps of the three node types.
+// (The recursive whole-trie map semantics of Update/Delete/Get is out of reach of the engine: see specs/C01.json.)
+
+// branch nodes built by this package (newBranchNode, decode of the trie's own storage) carry 17 child hashes
+struct branchNode
+  invariant width: len(EncodedChildren) == 17
+
+func childPosOutOfRange(pos byte) (r bool)
+  pure
+  ensures  beyond-17-children: r <==> pos >= 17
+
+// inverse of keyBytesToHex: drops the terminator, pairs the nibbles, restores the byte order. The code computes
+// hex[hi]<<4 | hex[lo] in byte arithmetic (verified in bit-vector mode); the clauses use only / and % so that the
+// round-trip lemma can be proved in integer mode. (For a low "nibble" >= 16 only the low half of the byte is specified.)
+func hexToKeyBytes(hex []byte) (key []byte, err error)
+  mode bv
+  requires non-empty-hex: len(hex) >= 1
+  ensures  odd-nibble-count-refused: err == nil <==> (len(hex) - 1) % 2 == 0
+  ensures  length: err == nil ==> len(key) == (len(hex) - 1) / 2
+  ensures  low-nibbles: err == nil ==> (forall k :: 0 <= k && k < len(key) ==> key[k] % 16 == hex[2*(len(key)-1-k)] % 16)
+  ensures  high-nibbles: err == nil ==> (forall k :: 0 <= k && k < len(key) && hex[2*(len(key)-1-k)] < 16 ==> key[k] / 16 == hex[2*(len(key)-1-k)+1] % 16)
+  assigns  nothing
+
+loop 1
+  invariant progress: 0 - 1 <= i && i < len(key) && hexSliceIndex == 2*(len(key)-1-i) && len(key) == length/2 && length == len(hex) && length % 2 == 0
+  invariant low-so-far: forall k :: i < k && k < len(key) ==> key[k] % 16 == hex[2*(len(key)-1-k)] % 16
+  invariant high-so-far: forall k :: i < k && k < len(key) && hex[2*(len(key)-1-k)] < 16 ==> key[k] / 16 == hex[2*(len(key)-1-k)+1] % 16
+  invariant input-kept: forall k :: 0 <= k && k < len(hex) ==> hex[k] == old(hex[k])
+
+// length of the longest common prefix
+func prefixLen(a []byte, b []byte) (r int)
+  pure
+  ensures  within: 0 <= r && r <= len(a) && r <= len(b)
+  ensures  common: forall k :: 0 <= k && k < r ==> a[k] == b[k]
+  ensures  maximal: r < len(a) && r < len(b) ==> a[r] != b[r]
+
+loop 1
+  invariant progress: 0 <= i && i <= length && length <= len(a) && length <= len(b) && (length == len(a) || length == len(b))
+  invariant common-so-far: forall k :: 0 <= k && k < i ==> a[k] == b[k]
+  decreases length - i
+
+func concat(s1 []byte, s2 []byte) (r []byte)
+  ensures  fresh(r)
+  ensures  length: len(r) == len(s1) + len(s2)
+  ensures  first-part: forall k :: 0 <= k && k < len(s1) ==> r[k] == s1[k]
+  ensures  second-part: forall k :: 0 <= k && k < len(s2) ==> r[len(s1)+k] == s2[k]
+  assigns  nothing
+
+func (ln *leafNode) isEmptyOrNil() (err error)
+  ensures  empty-iff-no-value: err == nil <==> ln.Value != nil
+  assigns  nothing
+
+func (en *extensionNode) isEmptyOrNil() (err error)
+  ensures  empty-iff-no-child: err == nil <==> (en.child != nil || len(en.EncodedChild) != 0)
+  assigns  nothing
+
+func (bn *branchNode) isEmptyOrNil() (err error)
+  requires inv(bn)
+  ensures  empty-iff-no-children: err == nil <==> (exists i :: 0 <= i && i < 17 && (bn.children[i] != nil || len(bn.EncodedChildren[i]) != 0))
+  assigns  nothing
+
+loop 1
+  invariant index: 0 - 1 <= rangeindex && rangeindex < 17
+  invariant empty-so-far: forall i :: 0 <= i && i <= rangeindex ==> bn.children[i] == nil && len(bn.EncodedChildren[i]) == 0
+
+// loads the child at pos from the database when only its hash is present (isPosCollapsed); three interface calls deep
+func resolveIfCollapsed(n node, pos byte, db data.DBWriteCacher) (err error)
+  trusted
+  ensures  ext-child-loaded: err == nil && typeIs(n, ptr_extensionNode) ==> asExt(n).child != nil
+  ensures  keys-kept: typeIs(n, ptr_extensionNode) ==> asExt(n).Key == old(asExt(n).Key)
+  assigns  asExt(n).child, asBranch(n).children
+
+// leaf: the value iff the remaining key equals the leaf's key, else "absent" (nil, nil)
+func (ln *leafNode) tryGet(key []byte, db data.DBWriteCacher) (value []byte, err error)
+  ensures  empty-leaf-is-an-error: err != nil <==> ln.Value == nil
+  ensures  found-iff-key-equal: err == nil ==> (sameBytes(key, ln.Key) ? value == ln.Value : value == nil)
+  assigns  nothing
+
+func (ln *leafNode) getNext(key []byte, db data.DBWriteCacher) (n node, k []byte, err error)
+  ensures  end-of-path: n == nil && k == nil
+  ensures  found-iff-key-equal: err == nil <==> (ln.Value != nil && sameBytes(key, ln.Key))
+  assigns  nothing
+
+// extension: keys that do not start with the segment are absent; otherwise the answer is the child's answer for the rest
+func (en *extensionNode) tryGet(key []byte, db data.DBWriteCacher) (value []byte, err error)
+  ensures  mismatch-is-absent: old((en.child != nil || len(en.EncodedChild) != 0) && !isPrefix(en.Key, key)) ==> value == nil && err == nil
+
+func (en *extensionNode) getNext(key []byte, db data.DBWriteCacher) (n node, k []byte, err error)
+  ensures  mismatch-is-not-found: (en.child != nil || len(en.EncodedChild) != 0) && !isPrefix(en.Key, key) ==> err != nil
+  ensures  step: err == nil ==> isPrefix(en.Key, key) && n == en.child && n != nil && k == key[len(en.Key):]
+  assigns  en.child, asBranch(iface(en)).children
+
+// branch: the first nibble selects the child; empty key and empty slot are absent
+func (bn *branchNode) tryGet(key []byte, db data.DBWriteCacher) (value []byte, err error)
+  requires inv(bn)
+  ensures  empty-key-is-absent: err == nil && len(key) == 0 ==> value == nil
+  ensures  nibble-out-of-range-is-an-error: len(key) > 0 && old(key[0]) >= 17 ==> err != nil
+
+func (bn *branchNode) getNext(key []byte, db data.DBWriteCacher) (n node, k []byte, err error)
+  requires inv(bn)
+  ensures  step: err == nil ==> len(key) > 0 && key[0] < 17 && n == bn.children[key[0]] && n != nil && k == key[1:]
+  ensures  empty-key-or-bad-nibble-is-an-error: len(key) == 0 || key[0] >= 17 ==> err != nil
+  assigns  bn.children, asExt(iface(bn)).child
+
+// decoding the hex form gives the key back
+lemma round-trip-key
+  vars s []byte
+  hyp  bytes-are-bytes: forall j :: 0 <= j && j < len(s) ==> 0 <= s[j] && s[j] < 256      // type range, not assumed under quantifiers by the engine
+  call h = keyBytesToHex(s)
+  call k, err = hexToKeyBytes(h)
+  concl hex-never-empty: len(h) >= 1
+  concl decodes: err == nil
+  concl same-key: len(k) == len(s) && (forall j :: 0 <= j && j < len(s) ==> k[j] == s[j])
+@*/
